@@ -41,7 +41,11 @@ fn unknown(mut c: Case) -> Case {
 
 /// cap on executions per item: far above what any item needs on the unchanged tree (a changed tree can make
 /// an item explode, e.g. one surplus worker); an item that hits its cap is reported as not exhaustive
-const DEFAULT_CAP: u64 = 150_000;
+const DEFAULT_CAP: u64 = 40_000;
+
+thread_local! {
+    static THOROUGH: std::cell::Cell<bool> = const { std::cell::Cell::new(false) };
+}
 
 fn item(case: Case, plan: Plan, checks: u32) -> Item {
     // unwrapped sources have no pull points: interleave at closure entries instead
@@ -56,7 +60,7 @@ fn item(case: Case, plan: Plan, checks: u32) -> Item {
         case.input.truncate(1);
     }
     if !plan.single && plan.max_execs == 0 {
-        plan.max_execs = DEFAULT_CAP;
+        plan.max_execs = if THOROUGH.with(|t| t.get()) { 10 * DEFAULT_CAP } else { DEFAULT_CAP };
     }
     Item { case, plan, checks }
 }
@@ -77,12 +81,13 @@ fn engine_fine(terms: &[Term], checks: u32, tier: Tier, kernels: &[&str]) -> Vec
                     c.spoints = true;
                     c.pmask = 0b0100;
                     out.push(item(c.clone(), if th { Plan::full().with_cap(300_000) } else { Plan::pb(2) }, checks));
+                    // three workers: one evaluating, one inside next(), one waiting for the handle
+                    let mut c3 = c.clone();
+                    c3.nt[0] = NtSet::Max(3);
+                    c3.input = (0..6).collect();
+                    out.push(item(c3.clone(), Plan::db(2), checks));
                     if th {
-                        let mut c3 = c.clone();
-                        c3.nt[0] = NtSet::Max(3);
-                        c3.input = (0..5).collect();
-                        out.push(item(c3.clone(), Plan::pb(2), checks));
-                        out.push(item(c3, Plan::db(2), checks));
+                        out.push(item(c3, Plan::pb(2), checks));
                     }
                 }
                 // closure granularity on a wrapped Vec
@@ -118,8 +123,8 @@ fn engine_lag(terms: &[Term], checks: u32, tier: Tier, kernels: &[&str]) -> Vec<
             for t in terms {
                 for cs in [CsSet::Min(1), CsSet::Min(2), CsSet::Keep] {
                     for n in [24usize, 31, 40] {
-                        for w in [6usize, 8] {
-                            if !th && (w == 8 && n != 31) {
+                        for w in [5usize, 6, 7, 8] {
+                            if !th && ((w == 8 && n != 31) || (w == 7 && n != 24) || (w == 5 && n == 40)) {
                                 continue;
                             }
                             let mut c = par(case(src, n, ch, *t), w, cs);
@@ -214,6 +219,29 @@ fn all_first_filter_masks(c: &Case, n: usize) -> Vec<Case> {
                 a
             })
             .collect(),
+    }
+}
+
+/// all expansion vectors over `alphabet`^n for the first flat_map stage of the chain
+fn all_first_expansions(c: &Case, n: usize, alphabet: &[u64]) -> Vec<Case> {
+    let xs = flatmaps_in(c.chain_str());
+    match xs.first() {
+        None => vec![c.clone()],
+        Some(i) => {
+            let k = alphabet.len();
+            (0..k.pow(n as u32))
+                .map(|mut code| {
+                    let mut e = 0u64;
+                    for slot in 0..n {
+                        e |= alphabet[code % k] << (2 * slot);
+                        code /= k;
+                    }
+                    let mut a = c.clone();
+                    a.expand[*i] = e;
+                    a
+                })
+                .collect()
+        }
     }
 }
 
@@ -364,6 +392,16 @@ fn engine_s(terms: &[Term], checks: u32, tier: Tier, kernels: &[&str], all_masks
                     out.push(item(c3, Plan::db(if th { 2 } else { 1 }), checks));
                 }
             }
+            // all expansion vectors of the first flat_map stage: {0,2}^6 (thorough {0,1,2}^6), two workers
+            if all_masks && src == Src::SVec && !flatmaps_in(ch).is_empty() {
+                for cs in [CsSet::N(1), CsSet::N(2), CsSet::N(3)] {
+                    let c = par(case(src, 6, ch, terms[0]), 2, cs);
+                    let alphabet: &[u64] = if th { &[0, 1, 2] } else { &[0, 2] };
+                    for mc in all_first_expansions(&c, 6, alphabet) {
+                        out.push(item(mc, Plan::pb(1), checks));
+                    }
+                }
+            }
             // all 2^N masks of the first filtering stage, bounded schedules
             if all_masks && src == Src::SVec && !filters_in(ch).is_empty() {
                 let n = if th { 5 } else { 4 };
@@ -381,6 +419,7 @@ fn engine_s(terms: &[Term], checks: u32, tier: Tier, kernels: &[&str], all_masks
 
 pub fn items(prop: &str, tier: Tier) -> Vec<Item> {
     let th = tier == Tier::Thorough;
+    THOROUGH.with(|t| t.set(th));
     let mut out: Vec<Item> = Vec::new();
     match prop {
         // ordered collect == sequential
@@ -592,9 +631,17 @@ pub fn items(prop: &str, tier: Tier) -> Vec<Item> {
             // offset writes of the map-only kernel, every interleaving
             for t in targets {
                 for cs in [CsSet::N(1), CsSet::N(2)] {
-                    let mut c = par(case(Src::SVec, 3, "M", t), 2, cs);
-                    c.prefix = 2;
-                    out.push(item(c, Plan::full(), CK_RESULT));
+                    for (pre, n) in [(1usize, 3usize), (2, 3), (1, 4), (2, 4), (3, 5)] {
+                        for (src, known) in [(Src::SVec, true), (Src::SIter, false)] {
+                            if src == Src::SIter && n > 3 {
+                                continue;
+                            }
+                            let mut c = par(case(src, n, "M", t), 2, cs);
+                            c.known = known;
+                            c.prefix = pre;
+                            out.push(item(c, Plan::full(), CK_RESULT));
+                        }
+                    }
                 }
             }
         }
@@ -636,8 +683,12 @@ pub fn items(prop: &str, tier: Tier) -> Vec<Item> {
                 for n in [1usize, 2, 3] {
                     let lens: Vec<usize> = vec![n.saturating_sub(1), n, n + 1, 2 * n + 1];
                     for len in lens {
-                        for cs in [CsSet::N(1), CsSet::N(2)] {
-                            let mut c = par(case(Src::SVec, len, ch, t), n, cs);
+                        for (cs, src, known) in [(CsSet::N(1), Src::SVec, true), (CsSet::N(2), Src::SVec, true), (CsSet::N(1), Src::SIter, false), (CsSet::N(2), Src::SIter, true)] {
+                            if !Src::SIter.supports(chains::CHAINS.iter().position(|c| *c == ch).unwrap()) && src == Src::SIter {
+                                continue;
+                            }
+                            let mut c = par(case(src, len, ch, t), n, cs);
+                            c.known = known;
                             c.cpoints = true;
                             c.pmask = 1 << (len.saturating_sub(1));
                             match n {
@@ -670,11 +721,15 @@ pub fn items(prop: &str, tier: Tier) -> Vec<Item> {
             for (ch, t) in progs {
                 for n in [5usize, 6, 7, 8] {
                     for len in [24usize, 40] {
-                        for cs in [CsSet::N(1), CsSet::Min(1)] {
+                        for (cs, src, known) in [(CsSet::N(1), Src::SVec, true), (CsSet::Min(1), Src::SVec, true), (CsSet::N(1), Src::SIter, false)] {
                             if !th && ((n == 5 || n == 8) && len == 40) {
                                 continue;
                             }
-                            let mut c = par(case(Src::SVec, len, ch, t), n, cs);
+                            if !Src::SIter.supports(chains::CHAINS.iter().position(|c| *c == ch).unwrap()) && src == Src::SIter {
+                                continue;
+                            }
+                            let mut c = par(case(src, len, ch, t), n, cs);
+                            c.known = known;
                             c.pmask = 1 << 30;
                             // no closure points: pulls are the points, thread ids come from the call log
                             out.push(item(c.clone(), Plan::base_rr(), ck));
